@@ -343,6 +343,20 @@ func init() {
 				})
 			},
 			diag: regexp.MustCompile(`overflows|constant .* overflow`)},
+		genFinding{sig: "addprops-true-missing-imports",
+			trigger: func(root *sg.Schema, _ []string) bool {
+				return anyNode(root, func(x *sg.Schema) bool {
+					return len(x.Props) > 0 && ((x.AddPropsBool != nil && *x.AddPropsBool) || (x.AddProps != nil && len(x.AddProps.Types) == 0 && x.AddProps.Ref == "" && !x.AddProps.HasEnum))
+				})
+			},
+			neutralise: func(root *sg.Schema) {
+				root.Walk(func(x *sg.Schema) {
+					if len(x.Props) > 0 && ((x.AddPropsBool != nil && *x.AddPropsBool) || (x.AddProps != nil && len(x.AddProps.Types) == 0 && x.AddProps.Ref == "" && !x.AddProps.HasEnum)) {
+						x.AddPropsBool, x.AddProps = nil, nil
+					}
+				})
+			},
+			diag: regexp.MustCompile(`undefined: (raw|reflect|strings|mapstructure)`)},
 		genFinding{sig: "ext-import-unused",
 			trigger: func(root *sg.Schema, _ []string) bool {
 				return anyNode(root, func(x *sg.Schema) bool { return x.Ext != nil && (x.HasEnum || x.Ref != "") })
@@ -481,7 +495,7 @@ func c01(ctx *Ctx) (*Outcome, error) {
 	// clean part
 	for i := 0; i < n; i++ {
 		r := sg.NewRng(ctx.Seed, fmt.Sprintf("C01-case-%d", i))
-		o := sg.Opts{MaxDepth: 3, Descs: true, DescPool: HostileTexts, Titles: c01Titles, IntLimits: true, PNullable: 0.25, PDefault: 0.35, PAddProps: 0.3}
+		o := sg.Opts{MaxDepth: 3, Descs: true, DescPool: HostileTexts, Titles: c01Titles, IntLimits: true, PNullable: 0.25, PDefault: 0.35, PAddProps: 0.3, NullType: true, RootKinds: true}
 		if r.Chance(0.35) {
 			o.Names = c01Names
 		}
@@ -508,7 +522,7 @@ func c01(ctx *Ctx) (*Outcome, error) {
 	nh := ctx.N(120, 2000)
 	for i := 0; i < nh; i++ {
 		r := sg.NewRng(ctx.Seed, fmt.Sprintf("C01-hazard-%d", i))
-		g := sg.NewGen(r, sg.Opts{MaxDepth: 2, Hazard: true, Descs: true, DescPool: append(append([]string{}, HostileTexts...), HostileTextsHazard...), PDefault: 0.4, PNullable: 0.3})
+		g := sg.NewGen(r, sg.Opts{MaxDepth: 2, Hazard: true, Descs: true, DescPool: append(append([]string{}, HostileTexts...), HostileTextsHazard...), PDefault: 0.4, PNullable: 0.3, AddPropsTrue: true, NullType: true, RootKinds: true})
 		root := g.Root()
 		switch i % 4 {
 		case 0:
